@@ -6,9 +6,9 @@ from pysym.values import *  # noqa
 WS = " \n\t\r"
 BARE_OK = "abcdefghijklmnopqrstuvwxyzABCDEFGHIJKLMNOPQRSTUVWXYZ0123456789_.:+/-"
 V_SIGMA = '{}",=#\\@ \nx1'
-F_SIGMA = 'x ,{"=}%1'
+F_SIGMA = 'x ,{"=}%1\x0c'
 K_SIGMA = "abA"
-W_SIGMA = " \n\t"
+W_SIGMA = " \n\t\r"
 
 
 def no_blockstart(s):
@@ -158,8 +158,9 @@ def is_key(s):
 
 
 def is_free(s):
+    """free text: first and last character are not whitespace (Python's notion: a form feed is whitespace too)"""
     n = len(s)
-    if n == 0 or s[0] in WS or s[n - 1] in WS:
+    if n == 0 or s[0].isspace() or s[n - 1].isspace():
         return False
     return no_blockstart(s) and "@" not in s
 
